@@ -325,6 +325,12 @@ type fsSt struct {
 type fsPool struct {
 	heights []uint64
 	valsets []tmconsensus.ValidatorSet
+
+	// committed header store: headers and proofs generated so far, per height, so that a later
+	// save can carry the very same header with another proof (the proof is the subjective half
+	// of a committed header: the mirror may save a height again with more signatures)
+	hdrs   map[uint64][]tmconsensus.Header
+	proofs map[uint64][]tmconsensus.CommitProof
 }
 
 func finalizationSpec() *spec {
@@ -447,10 +453,44 @@ func committedHeaderSpec() *spec {
 			in := &chIn{H: pick(rng, p.heights)}
 			if rng.IntN(100) < 45 {
 				in.Op = "SaveCommittedHeader"
-				in.ch = tmconsensus.CommittedHeader{
-					Header: genHeader(rng, in.H, rb(rng, 8), tag, p.valsets),
-					Proof:  genCommitProof(rng, tag),
+				if p.hdrs == nil {
+					p.hdrs, p.proofs = map[uint64][]tmconsensus.Header{}, map[uint64][]tmconsensus.CommitProof{}
 				}
+				switch x := rng.IntN(10); {
+				case x < 4 && len(p.hdrs[in.H]) > 0:
+					// the same header (same hash) as an earlier save of this height, another proof:
+					// a fresh one, or an earlier one of this height grown by more signatures
+					in.ch.Header = pick(rng, p.hdrs[in.H])
+					if rng.IntN(2) == 0 {
+						in.ch.Proof = genCommitProof(rng, tag)
+					} else {
+						old := pick(rng, p.proofs[in.H])
+						np := tmconsensus.CommitProof{Round: old.Round, PubKeyHash: old.PubKeyHash}
+						if old.Proofs != nil || rng.IntN(2) == 0 {
+							np.Proofs = map[string][]gcrypto.SparseSignature{}
+							for k, v := range old.Proofs {
+								np.Proofs[k] = append(append([]gcrypto.SparseSignature{}, v...), genSigs(rng, tag)...)
+							}
+							if len(np.Proofs) == 0 || rng.IntN(3) == 0 {
+								np.Proofs[string(rb(rng, 8))] = genSigs(rng, tag)
+							}
+						}
+						in.ch.Proof = np
+					}
+				case x < 5 && len(p.proofs[in.H]) > 0:
+					// another header, an earlier proof
+					in.ch = tmconsensus.CommittedHeader{
+						Header: genHeader(rng, in.H, rb(rng, 8), tag, p.valsets),
+						Proof:  pick(rng, p.proofs[in.H]),
+					}
+				default:
+					in.ch = tmconsensus.CommittedHeader{
+						Header: genHeader(rng, in.H, rb(rng, 8), tag, p.valsets),
+						Proof:  genCommitProof(rng, tag),
+					}
+				}
+				p.hdrs[in.H] = append(p.hdrs[in.H], in.ch.Header)
+				p.proofs[in.H] = append(p.proofs[in.H], in.ch.Proof)
 				in.CH = cCH(in.ch)
 			} else {
 				in.Op = "LoadCommittedHeader"
